@@ -1,3 +1,4 @@
+mod big32;
 mod cmpmon;
 mod conc;
 mod engines;
@@ -222,6 +223,7 @@ fn main() {
         "eqclass" => engines::engine_eqclass(&a),
         "huge" => engines::engine_huge(&a),
         "conc" => conc::engine_conc(&a),
+        "big32" => big32::engine_big32(&a),
         "ints" => sweeps::engine_ints(&a),
         "tls" => sweeps::engine_tls(&a),
         "utf" => sweeps::engine_utf(&a),
